@@ -204,6 +204,20 @@ CHECKS.update({
     ),
 })
 
+CHECKS.update({
+    'C04': dict(
+        script='checks/c04.py', category='model_checking', design='DESIGN.md §4 C04', engine='pysym+llsym',
+        text=('The real Python ZoneSpecifier executed by pysym (epoch_seconds symbolic; UTC year and Jan-1 a case split '
+              'through a datetime.utcfromtimestamp stand-in, init_for_year concrete through the real code, the transition '
+              'lookup forking on its comparisons) against the llsym leaves of the C++ extended processor for the same zone data '
+              '(Python tables generated by the real tzcompiler from the source recorded in the shipped zonedbx tables): on every '
+              'intersection of a Python leaf and a C++ leaf offset, DST offset and abbreviation coincide (SMT over the symbolic '
+              'instant, all of 2000..2049, all 387 zones); the option combinations (2 in quick, all 8 in thorough) give the same '
+              'step function. Local date-time selection is not compared.'),
+        technique='symbolic execution of the Python reference (pysym) and of the C++ processor (llsym) joined by SMT queries over the instant',
+    ),
+})
+
 NOT_APPLICABLE = {
     'C19': ('the generators are sampling loops around pytz/dateutil tzinfo objects backed by binary tz files and '
             'C-implemented datetime; neither CrossHair nor our symbolic executor can make those symbolic, and a '
